@@ -1,5 +1,6 @@
 // UNIT LNR — LineReader::find_line and the reader's line stores: the Line handed out for an offset is the file's line around that
 // offset, whatever the block size (C12, C02).  Under contract: find_line (whole 750-line function, six loops, termination included),
+// find_line_in_block (whole function, two loops),
 // insert_line (its two debug assertions are proved at every call site), get_linep, lines_contains, check_store, check_store_LRU.
 // The store invariant (every stored line is a true line of the file keyed by its first byte, its last byte recorded in
 // foend_to_fobeg and vice versa, every cached answer is the good line around its key) is required on entry and re-established on exit.
@@ -401,9 +402,11 @@ impl LineReader {
         // a cached Found is the good line around the offset
         r is Some && r.unwrap() is Found ==> good_line(old(self).f(), old(self).bs(), *r.unwrap()->Found_0.1, fileoffset as int) && r.unwrap()->Found_0.0 as int == l_end(*r.unwrap()->Found_0.1) + 1,
 //@end
-    // assumed: is this the file's last byte
+    // assumed (BlockReader::is_fileoffset_last, unit BLK: fileoffset_last = filesz - 1): is this the file's last byte
     #[verifier::external_body]
-    pub fn is_line_last(&self, linep: &LineP) -> bool { unimplemented!() }
+    pub fn is_fileoffset_last(&self, fileoffset: FileOffset) -> (r: bool) ensures r == (fileoffset as int == self.f().len() - 1) { unimplemented!() }
+    #[verifier::external_body]
+    pub fn is_line_last(&self, linep: &LineP) -> (r: bool) requires linep.lineparts@.len() > 0 ensures r == (l_end(**linep) == self.f().len() - 1) { unimplemented!() }
 
 //@cut fn path=src/readers/linereader.rs impl=LineReader name=insert_line ret=r
 //@replace "LineP::new(line)" "Arc::new(line)"
@@ -721,6 +724,105 @@ impl LineReader {
                 if self.lines@.contains_key(b as u64) { let o = *self.lines@[b as u64]; lemma_same_line(f, b, e_, l_beg(o), l_end(o), b); }
                 if self.foend_to_fobeg@.contains_key(e_ as u64) { let k = self.foend_to_fobeg@[e_ as u64]; let o = *self.lines@[k]; lemma_same_line(f, b, e_, l_beg(o), l_end(o), e_); }
             }
+//@end
+
+//@cut fn path=src/readers/linereader.rs impl=LineReader name=find_line_in_block ret=r rlimit=400
+//@replace "pub fn find_line_in_block" "#[verifier::exec_allows_no_decreases_clause] pub fn find_line_in_block"
+//@replace "self.find_line_lru_cache_put += 1;" "verif_count_inc(&mut self.find_line_lru_cache_put);" count=*
+//@replace "self.lines_hits += 1;" "verif_count_inc(&mut self.lines_hits);"
+//@replace "self.lines_miss += 1;" "verif_count_inc(&mut self.lines_miss);"
+//@replace "self.lines[&fo_nl_a].clone()" "verif_map_get_clone(&self.lines, &fo_nl_a)"
+//@replace "std::cmp::max(fileoffset, charsz_fo)" "verif_max(fileoffset, charsz_fo)"
+//@replace "const BI_STOP: BlockIndex = 0;" "let BI_STOP: BlockIndex = 0;"
+//@replace "LineP::new(line)" "Arc::new(line)"
+//@spec
+    requires old(self).wf()
+    ensures
+        final(self).same(old(self)), final(self).wf(),
+        // C12 / C02 (block-zero analysis): a line found inside its block is the file's line around the offset, with the offset after it
+        // (what the "partial" line holds when the line does not end inside the block is unit LNB's concern, known finding D6)
+        r.0 is Found ==> good_line(old(self).f(), old(self).bs(), *r.0->Found_0.1, fileoffset as int) && r.0->Found_0.0 as int == l_end(*r.0->Found_0.1) + 1,
+//@before "let mut partial_line= false;"
+        let ghost f = self.f();
+        let ghost bs = self.bs();
+        let ghost fsz = f.len() as int;
+        let ghost sp0 = *self;
+        proof { lemma_offs(fileoffset as int, bs); }
+//@after "let mut bi_middle_end: BlockIndex = bi_middle;"
+        proof { lemma_block(f, bs, bo_middle as int); }
+        let ghost mbase = bo_middle as int * bs;
+//@loop 1
+            invariant_except_break
+                bi_middle <= bi_at < bi_stop, !found_nl_b, bi_middle_end == bi_middle,
+                no_nl(f, fileoffset as int, mbase + bi_at),
+            invariant
+                ctx(self, &sp0, f, bs, fsz), miss(sp0.lines@, fileoffset as int), charsz_bi == 1,
+                bptr_middle@ == fblock(f, bs, bo_middle as int), bi_stop == bptr_middle@.len(), mbase == bo_middle as int * bs, mbase + bi_middle == fileoffset,
+                mbase + bi_stop <= fsz, mbase >= 0,
+                forall|i: int| 0 <= i < bptr_middle@.len() ==> #[trigger] bptr_middle@[i] == f[mbase + i],
+                !nl_b_eof, line.lineparts@.len() == 0,
+            ensures
+                bi_middle <= bi_at <= bi_stop,
+                found_nl_b ==> bi_at < bi_stop && f[mbase + bi_at] == 10u8 && no_nl(f, fileoffset as int, mbase + bi_at) && fo_nl_b as int == mbase + bi_at && bi_middle_end == bi_at,
+                !found_nl_b ==> bi_at == bi_stop && no_nl(f, fileoffset as int, mbase + bi_stop) && bi_middle_end == bi_middle,
+            decreases bi_stop - bi_at,
+//@before "if !found_nl_b && bo_middle == blockoffset_last {"
+        proof { lemma_block(f, bs, bo_middle as int); }
+//@before "if found_nl_a {" 1
+        let ghost e = fo_nl_b as int;
+        let ghost tail = line.lineparts@;
+        proof {
+            lemma_block(f, bs, bo_middle as int);
+            assert(partial_line == !found_nl_b);
+            if found_nl_b {
+                assert(nl_b_eof == (e == fsz - 1));
+                assert(fwd_done(tail, f, bs, bo_middle as int, fileoffset as int, e, bi_middle_end as int, nl_b_eof));
+            }
+            assert(bi_middle <= bi_middle_end < bptr_middle@.len());
+            lemma_split(bo_middle as int, bi_middle as int, bs);
+            lemma_split(bo_middle as int, 0, bs);
+        }
+//@after "line.prepend(li);" 1
+            proof { if found_nl_b { lemma_mid(line.lineparts@[0], tail, f, bs, bo_middle as int, fileoffset as int, e, bi_middle_end as int, nl_b_eof); } }
+//@after "line.prepend(li);" 2
+                proof { lemma_mid(line.lineparts@[0], tail, f, bs, bo_middle as int, fileoffset as int, e, bi_middle_end as int, nl_b_eof); }
+//@after "line.prepend(li);" 3
+                        proof { lemma_mid(line.lineparts@[0], tail, f, bs, bo_middle as int, fileoffset as int, e, bi_middle_end as int, nl_b_eof); }
+//@before "let linep: LineP = self.insert_line(line);" *
+            proof {
+                broadcast use group_btree_axioms;
+                assert(good_line(f, bs, line, fileoffset as int));
+                let b = l_beg(line); let e_ = l_end(line);
+                if self.lines@.contains_key(b as u64) { let o = *self.lines@[b as u64]; lemma_same_line(f, b, e_, l_beg(o), l_end(o), b); }
+                if self.foend_to_fobeg@.contains_key(e_ as u64) { let k = self.foend_to_fobeg@[e_ as u64]; let o = *self.lines@[k]; lemma_same_line(f, b, e_, l_beg(o), l_end(o), e_); }
+            }
+//@after "let fo_nl_a_search_start: FileOffset"
+        proof { lemma_offs(fo_nl_a_search_start as int, bs); }
+//@loop 2
+            invariant_except_break
+                !found_nl_a, no_nl(f, mbase + bi_at + 1, fileoffset as int),
+            invariant
+                ctx(self, &sp0, f, bs, fsz), miss(sp0.lines@, fileoffset as int), charsz_bi == 1, charsz_fo == 1, BI_STOP == 0,
+                bptr_middle@ == fblock(f, bs, bo_middle as int), mbase == bo_middle as int * bs, mbase + bi_middle == fileoffset, mbase >= 0,
+                bi_at < bi_middle || found_nl_a, bi_middle < bptr_middle@.len(), mbase + bptr_middle@.len() <= fsz,
+                forall|i: int| 0 <= i < bptr_middle@.len() ==> #[trigger] bptr_middle@[i] == f[mbase + i],
+                line.lineparts@ == tail,
+            ensures
+                found_nl_a ==> 1 <= bi_at <= bi_middle && f[mbase + bi_at - 1] == 10u8 && fo_nl_a1 as int == mbase + bi_at && no_nl(f, mbase + bi_at, fileoffset as int),
+                !found_nl_a ==> bi_at == 0 && no_nl(f, mbase, fileoffset as int),
+            decreases bi_at,
+//@before "let li: LinePart =" 4
+        proof { lemma_split(bo_middle as int, bi_at as int, bs); }
+//@after "line.prepend(li);" 4
+        proof {
+            if found_nl_b {
+                lemma_mid(line.lineparts@[0], tail, f, bs, bo_middle as int, fileoffset as int, e, bi_middle_end as int, nl_b_eof);
+                assert(is_startpoint(f, fileoffset as int, s_beg(line.lineparts@)));
+                lemma_good(f, bs, line, fileoffset as int, e);
+            }
+        }
+//@mutate "bi_middle_end = bi_at;" "bi_middle_end = bi_middle;"
+//@mutate "fo_nl_a1 = fo_nl_a + charsz_fo;" "fo_nl_a1 = fo_nl_a;"
 //@end
 }
 /// stand-in (R9) for `counter += 1` on a u64 statistics counter: assumed not to overflow
